@@ -91,7 +91,8 @@ VERB_CTX = [
     ("list-fence", "- ```\n  "), ("code", "    "), ("code-2", "    a\n    "), ("list-code", "- a\n\n      "),
     ("quote-code", ">     "), ("html", "<div>\n"), ("html-quote", "> <div>\n> "), ("hr", "--"), ("hr-star", "* *"),
     ("list-hr", "- **"), ("atx", "#"), ("atx2", "## a "), ("setext", "a\n"), ("olist", "1"), ("olist-2", "12"),
-    ("olist-quote", "> 1"), ("tab-code", "\t"), ("tab-list-code", "-\t\t"),
+    ("olist-quote", "> 1"), ("tab-code", "\t"), ("tab-list-code", "-\t\t"), ("olist-tab-2nd", "\t1. a\n\t2"), ("olist-2nd", "1. a\n1"),
+    ("fence-close-longer", "```\nx\n```"), ("fence-close-trail", "~~~\nx\n~~~"),
 ]
 
 
